@@ -70,7 +70,12 @@ def r1_kneighbors(ctx):
         ok = None
         if tr is not None and tr[0] == "call" and callee(tr) == "verde.utils.kdtree" and tr[2]:
             ok = True if canon(tr[2][0]) == canon(want) or Q.leaves(tr[2][0]) == Q.leaves(want) else None
-        ctx.check("R1", "%s|tree-on-validated-coordinates|%s" % (qn, tag), ok, "tree_ is built on the first two validated coordinates (E, N)", bad="tree_ is built on reversed coordinates", fn=qn)
+        why = "tree_ is built on reversed coordinates"
+        if tr is None and "data_" in sets:
+            # data_ comes from this call, the tree from an earlier one: neighbours are looked up among the OLD points and their indices
+            # are used to gather the NEW values
+            ok, why = False, "a path of fit stores data_ but leaves tree_ as it was: after a refit the tree and the data belong to different point sets"
+        ctx.check("R1", "%s|tree-on-validated-coordinates|%s" % (qn, tag), ok, "tree_ is built on the first two validated coordinates (E, N)", bad=why, fn=qn, line=p.line)
         d = sets.get("data_")
         okd = None
         if d is not None:
